@@ -49,7 +49,9 @@ fn gen_cases(mode: &str, tier: &str, seed: u64) -> Vec<Case> {
         let h = History::generate(&mut r, awkward, if mode == "cuts" { 3 } else { 9 });
         let with_data = !r.chance(1, 6);
         let chunks = h.render_chunks(&mut r, with_data);
-        let opts = match mode { "neutral" => OptSet::neutral(), _ => OptSet::generate(&mut r, &h) };
+        let mut opts = match mode { "neutral" => OptSet::neutral(), _ => OptSet::generate(&mut r, &h) };
+        // every fifth case runs in a repository where an earlier run left its commit-map (old-id translation of messages)
+        if mode != "cuts" && id % 5 == 4 { opts.prior_map = Some(OptSet::gen_prior_map(&mut r)); }
         let stream: Vec<u8> = chunks.concat();
         let base = Case { id, opts, chunks, stream, nmarks: h.max_mark() + 2, paths: h.all_paths(), kind: "generated", nontrivial: true };
         id += 1;
@@ -174,6 +176,15 @@ fn main() {
                             if zero > 0 { *d.entry("runs-with-pruned-commits".into()).or_insert(0) += 1; }
                             if !obs.ref_map.is_empty() { *d.entry("runs-with-renamed-refs".into()).or_insert(0) += 1; }
                             if obs.filtered != c.stream { *d.entry("runs-that-change-the-stream".into()).or_insert(0) += 1; }
+                            if let Some(pm) = &c.opts.prior_map {
+                                *d.entry("runs-after-an-earlier-commit-map".into()).or_insert(0) += 1;
+                                // the translator has something to do: a message cites an id the earlier map records
+                                let cites = pm.split(|b| *b == b'\n').filter(|l| l.len() > 12).any(|l| {
+                                    let k = l[..12].to_ascii_lowercase();
+                                    c.stream.windows(12).any(|w| w.to_ascii_lowercase() == k)
+                                });
+                                if cites { *d.entry("runs-whose-messages-cite-a-recorded-id".into()).or_insert(0) += 1; }
+                            }
                         }
                     }
                     let r = obs.reply();
